@@ -8,7 +8,7 @@ SIGMA_Q = ['a', '1', '"s"', '==', '<', 'in', 'not', '+', '-', '*', '**', '/', 'a
 # every token type and every spelling
 SIGMA_FULL = SIGMA_Q + ['!=', '>', '>=', '<=', '-=', '*=', '/=', 'False', 'None',
                         'while', 'break', 'continue', 'def', 'raise', 'elif',
-                        'b', '%n m%', '2.5', "'s'", 'r"s"', '\r\n', '"u\\nv"']
+                        'b', '%n m%', '2.5', "'s'", 'r"s"', '\r\n', '"u\\nv"', 'index', 'notx', 'orb', '0', 'Truex', 'r']
 
 SIGMA_CHAR = ['a', '1', '.', '"', "'", '\\', '%', '#', ' ', '\n', 'r', '=', '>', '-', '(', ']',
               'é', '\x00', '\ud800', '$', '\f', '\r', ';', '\U0001F600', '²', '１']
